@@ -262,6 +262,28 @@ func derivesFrom(v, root ssa.Value, depth int) bool {
 		return derivesFrom(x.X, root, depth-1) || derivesFrom(x.Y, root, depth-1)
 	case *ssa.Slice:
 		return derivesFrom(x.X, root, depth-1)
+	case *ssa.Alloc:
+		// values stored into the cell or into elements of a local array (varargs packing)
+		for _, ref := range *x.Referrers() {
+			switch y := ref.(type) {
+			case *ssa.Store:
+				if y.Addr == ssa.Value(x) && derivesFrom(y.Val, root, depth-1) {
+					return true
+				}
+			case *ssa.IndexAddr:
+				for _, r2 := range *y.Referrers() {
+					if st, ok := r2.(*ssa.Store); ok && st.Addr == ssa.Value(y) && derivesFrom(st.Val, root, depth-1) {
+						return true
+					}
+				}
+			}
+		}
+	case *ssa.Convert:
+		return derivesFrom(x.X, root, depth-1)
+	case *ssa.ChangeType:
+		return derivesFrom(x.X, root, depth-1)
+	case *ssa.MakeInterface:
+		return derivesFrom(x.X, root, depth-1)
 	case *ssa.IndexAddr:
 		return derivesFrom(x.X, root, depth-1)
 	case *ssa.Index:
